@@ -22,15 +22,14 @@ from .sir import loc
 # (view, relation, lhs, rhs, reason); operands: 'in.f' = field at entry, 'arg.a' = constructor argument, a number, or the
 # rendering of a child-output term such as 'b.out'.
 ASSUMED = [
-    ('Alma', 'gt', 'arg.sigma', 0.0, 'constructor precondition: sigma > 0 (admissible parameters)'),
-    ('Divide', 'ne', 'b.out', 0.0, 'property domain: divisor non-zero'),
-    ('Drawdown', 'gt', 'view.out', 0.0, 'property domain: positive inputs'),
-    ('LnReturn', 'gt', 'in.current_val', 0.0, 'holds inner outputs, positive by the property domain'),
-    ('LnReturn', 'gt', 'in.last_val', 0.0, 'holds inner outputs, positive by the property domain'),
-    ('HLNormalizer', 'le', 'in.min', 'in.last', 'min is the minimum of the window (C02 X1) and last is its newest element'),
-    ('HLNormalizer', 'le', 'in.last', 'in.max', 'max is the maximum of the window (C02 X1) and last is its newest element'),
-    ('WelfordRolling', 'ge', 'in.s', 0.0, 's is a sum of Welford increments (x-old_mean)(x-new_mean); new_mean lies between old_mean and x, so each is >= 0'),
+    ('Alma', 'gt', '<float-arg:0>', 0.0, 'constructor precondition: sigma > 0 (admissible parameters)'),
+    ('Divide', 'ne', '<child:1>', 0.0, 'property domain: divisor (the second child\'s output) non-zero'),
+    ('Drawdown', 'gt', '<child:0>', 0.0, 'property domain: positive inputs'),
+    ('LnReturn', 'gt', '<float-cells>', 0.0, 'the two registers hold inner outputs, positive by the property domain; the zero they start from is excluded by the guard on last() (C13 LN pins the register discipline)'),
 ]
+# Facts that used to be assumed and are now DERIVED on the analysed tree (sfa/e_window.py): buffer-sum accumulators
+# (Alma cum_wt >= 0, cum_wt >= front(q_wtd)), constructor-only fields (Alma s > 0), verified window extrema around the newest-value
+# register (HLNormalizer min <= last <= max), cross-term accumulators (WelfordRolling s >= 0).
 
 # Sites no interval argument reaches; each is tied to the construct that makes it safe (checked where applied).
 EXCEPTIONS = [
@@ -57,7 +56,7 @@ def ctor_constant_facts(m, B):
                 break
             pre = [op('ge', ('arg', a), lit(1, 'i')) for a in B.int_args] + [c for c in mm['pre'] if isinstance(c, tuple)]
             H = Hyps(pre, B.ctx(mm['vg']))
-            facts = assumed_facts(m.v.name, [t])
+            facts = assumed_facts(m.v.name, [t], m.v)
             fs = FSign(facts, int_lb_factory(H), mm['vg'].loops)
             r = fs.rng(t)
             pos = pos and r.positive()
@@ -72,29 +71,45 @@ def ctor_constant_facts(m, B):
     return out
 
 
-def assumed_facts(vname, terms):
-    """Condition terms for the reviewed facts of view `vname`, resolved against the subterms of `terms`."""
-    by_str = None
+def assumed_facts(vname, terms, view=None):
+    """Condition terms for the reviewed facts of view `vname`, resolved against the subterms of `terms`. Operands are named by
+    role, not by field name: <child:k> = output of the k-th inner view, <float-arg:k> = k-th float constructor argument,
+    <float-cells> = every float state cell of the view."""
     out = []
-    for (vn, rel, lhs, rhs, reason) in ASSUMED:
-        if vn != vname:
-            continue
+    rows = [r for r in ASSUMED if r[0] == vname]
+    if not rows:
+        return out
+    subs = None
+    for (vn, rel, lhs, rhs, reason) in rows:
         ops = []
         for x in (lhs, rhs):
             if isinstance(x, (int, float)):
                 ops.append([lit(float(x), 'f')])
-            elif x.startswith('in.') and '(' not in x:
-                ops.append([('in', x[3:])])
-            elif x.startswith('arg.'):
-                ops.append([('arg', x[4:])])
+                continue
+            if subs is None:
+                subs = set()
+                for t in terms:
+                    for st in subterms(t):
+                        subs.add(st)
+            if x.startswith('<child:'):
+                k = int(x[7:-1])
+                names = [f.name for f in view.children_fields()] if view is not None else []
+                nm = names[k] if k < len(names) else None
+                ops.append([st for st in subs if st[0] == 'child' and st[1] == nm])
+            elif x.startswith('<float-arg:'):
+                k = int(x[11:-1])
+                fargs = []
+                if view is not None:
+                    for c in view.ctors:
+                        fa = [nm for (pid, nm, ty) in c.param_ids() if ty == 'T' and nm]
+                        if len(fa) > k:
+                            fargs.append(fa[k])
+                ops.append([('arg', a) for a in sorted(set(fargs))])
+            elif x == '<float-cells>':
+                ops.append([st for st in subs if st[0] == 'in' and view is not None and any(
+                    f.name == st[1] and f.role == 'cell' and not str(f.ty_str).startswith(('usize', 'bool', 'u', 'i')) for f in view.fields)])
             else:
-                if by_str is None:
-                    by_str = {}
-                    for t in terms:
-                        for st in subterms(t):
-                            if st[0] in ('op', 'child', 'childlast', 'payload', 'front', 'back', 'get'):
-                                by_str.setdefault(tstr(st), set()).add(st)
-                ops.append(list(by_str.get(x, ())))
+                ops.append([])
         for l in ops[0]:
             for r in ops[1]:
                 out.append(op(rel, l, r))
@@ -181,8 +196,8 @@ class Ready:
                 vg.run(h, '')
                 vgs.append((vg, h.name, self.B.pre + self.inv))
         # facts derived on this tree (not assumed): constructor-only float fields, buffer-sum accumulators
-        from .e_window import buffer_sum_facts
-        derived = ctor_constant_facts(self.m, self.B) + buffer_sum_facts(self.F, v)
+        from .e_window import buffer_sum_facts, extremum_facts, cross_term_facts
+        derived = ctor_constant_facts(self.m, self.B) + buffer_sum_facts(self.F, v) + extremum_facts(self.F, v) + cross_term_facts(self.F, v)
         counters['derived-facts'] = counters.get('derived-facts', 0) + len(derived)
         for vg, label, entry in vgs:
             ctx = self.B.ctx(vg)
@@ -208,7 +223,7 @@ class Ready:
                 ev_terms = [x for x in ev.data if isinstance(x, tuple)] + [c for c in pc if isinstance(c, tuple)]
                 if ev.kind in ('debug_assert', 'assert'):
                     ev_terms = list(ev.data[1]) + [c for c in pc if isinstance(c, tuple)]
-                facts = assumed_facts(v.name, ev_terms)
+                facts = assumed_facts(v.name, ev_terms, v)
                 if facts:
                     counters['assumed-fact-uses'] = counters.get('assumed-fact-uses', 0) + 1
                 if label in ('update', 'last') or not any(mm['fn'].name == label for mm in self.m.ctor_models):
